@@ -242,6 +242,8 @@ func (dm *DMap) setLRUEvictionStats(e *env) error {
 			if err != nil {
 				return err
 			}
+			// The eviction changed the fragment. Don't evaluate MaxInuse with stale numbers.
+			st = e.fragment.storage.Stats()
 		}
 	}
 
